@@ -63,7 +63,7 @@ Inductive reason :=
 | NotLower | BadValue | PseudoAfterRegular | UnknownPseudo | DupPseudo | RspPseudoInRequest
 | ReqPseudoInResponse | BadName | ConnSpecific | BadTE | CLContradict | CLInvalid
 | PseudoInTrailer | BadTrailerName | ExtConnectRule | ConnectRule | NormalRule | ProtocolRule
-| MissingStatus | BadStatus | UrlParse | UrlParseExt.
+| MissingStatus | BadStatus | UrlParse | UrlParseExt | EmptyPseudo | ConnectSchemeRule.
 
 Inductive err :=
 | ETooLarge                 (* errHeaderTooLarge: 431 + H3_EXCESSIVE_LOAD *)
@@ -207,6 +207,8 @@ Definition pstep (isReq : bool) (st : pst) (f : field) : err + pst :=
            if get_flag sl (pSeen st) then inl (EMalformed DupPseudo)
            else if isReq && slot_is_response sl then inl (EMalformed RspPseudoInRequest)
            else if negb isReq && negb (slot_is_response sl) then inl (EMalformed ReqPseudoInResponse)
+           (* fixes/C19-empty-pseudo-header.patch: no pseudo-header has a valid empty value *)
+           else if is_empty (fvalue f) then inl (EMalformed EmptyPseudo)
            else inr (PS (set_slot sl (fvalue f) (pPs st)) (set_flag sl (pSeen st)) (pHeaders st) (pRegular st) (pReadCL st) (pCL st) lim)
          end
   else match validate_regular f with
@@ -368,7 +370,9 @@ Definition request_of (h : hdr) (uri : bytes -> bool * bytes * bytes) : err + re
     if isExt then
       if is_empty (sScheme p) || is_empty (sPath p) || is_empty (sAuthority p) then Some ExtConnectRule else None
     else if isConnect then
-      if negb (is_empty (sPath p)) || is_empty (sAuthority p) then Some ConnectRule else None
+      if negb (is_empty (sPath p)) || is_empty (sAuthority p) then Some ConnectRule
+      else if negb (is_empty (sScheme p)) then Some ConnectSchemeRule   (* fixes/C19-connect-with-scheme.patch *)
+      else None
     else if is_empty (sPath p) || is_empty (sAuthority p) || is_empty (sMethod p) then Some NormalRule else None in
   match rule with
   | Some r => inl (EMalformed r)
